@@ -178,13 +178,22 @@ Definition outcome_of (ext : bool) (cached : option meta) (r : resp) : outcome :
   | ROther => O_err E_Unexpected
   end.
 
-(* the store performed on receiving the answer to an EXECUTE (parse error => none) *)
+(* the store performed on receiving the answer to an EXECUTE (parse error => none).
+   [uses_cached_metadata()]: when the response carried no metadata, what the rows hold is the
+   snapshot of the cached metadata the request was built with (or the empty mock) — the server
+   announced nothing, nothing is stored (repo 75c6d7e; before it the snapshot could be written
+   back over newer metadata, finding F20) *)
 Definition exec_store (ext : bool) (cached : option meta) (cur : meta) (r : resp) : option meta :=
   match r with
-  | RRows b => match used_meta ext cached b with
-               | Ok u => handle_new_id cur u
-               | Err _ => None
-               end
+  | RRows b =>
+      match rb_meta b with
+      | RM_none _ => None
+      | RM_full _ _ =>
+          match used_meta ext cached b with
+          | Ok u => handle_new_id cur u
+          | Err _ => None
+          end
+      end
   | _ => None
   end.
 
